@@ -28,4 +28,14 @@ TEXTS = {
         "level_text": "Exploration; exhaustive over all 2^24 rgb8 pixels for each of hsv, hsl, xyz, lab, ycbcr601, ycbcr709 and the cmyka leg (117 million round trips), plus the hue/saturation/value boundary grid, the complete gray_alpha8 plane, a gray_alpha16 lattice, luminance on a lattice and complete cmyka ink planes.",
         "level_note": "The rgb->cmyka direction does not exist in the library; that clause is instantiated through core rgb->cmyk.",
     },
+    "C01": {
+        "technique": "rapidcheck-generated construction histories, view programs and access scripts executed under ASan/UBSan with guard-page buffers; invariant oracle plus identity-tag values through a coordinate model",
+        "level_text": "Exploration: 80k (quick) / 1.2M (thorough) generated cases over 28 image organisations x 9 construction histories x alignments x shapes (0 and 1 weighted in) x view programs up to depth 4 (+nth_channel) x every accessor x 9 algorithms. Any out-of-buffer access is an ASan report or a fault on a guard page; every value read is also compared with the identity tag of the pixel the model names.",
+        "level_note": "Trusts ASan's redzones for image-owned buffers and mmap guard pages for caller-supplied buffers of exactly height x row-bytes. Empty views are only traversed, never dereferenced.",
+    },
+    "C02": {
+        "technique": "rapidcheck view programs interpreted both by the library and by an affine coordinate model over identity-tagged pixels; shallow-write diff; algebraic identities",
+        "level_text": "Exploration: 100k (quick) / 1.6M (thorough) generated (configuration, root, shape, program, tail, write) cases; for each, dimensions and EVERY pixel of the derived view are compared with the documented coordinate formula, one write through the view is checked to change exactly one root channel (whole root and raw buffer diffed), and seven identities are checked pixel- and address-wise. Dereference-adaptor (colour-converted, channel) and bit-aligned/planar/packed locators are in the matrix.",
+        "level_note": "The model is written from the documentation formulas only. Virtual locators are covered by the separate c02_virtual target.",
+    },
 }
